@@ -48,7 +48,9 @@ import (
 	"github.com/keep-network/keep-core/pkg/tecdsa/dkg"
 	"github.com/keep-network/keep-core/pkg/tecdsa/dkg/gen/pb"
 	"github.com/keep-network/keep-core/pkg/tecdsa/signing"
+	signingpb "github.com/keep-network/keep-core/pkg/tecdsa/signing/gen/pb"
 	"google.golang.org/protobuf/proto"
+	"google.golang.org/protobuf/reflect/protoreflect"
 	"google.golang.org/protobuf/types/known/timestamppb"
 	"pgregory.net/rapid"
 )
@@ -103,9 +105,17 @@ type c08Hub struct {
 	plan      map[string]int // "sender/typeIdx/receiver" -> action
 	held      map[group.MemberIndex][]c08Held
 	backlog   map[group.MemberIndex][]*c08Msg // arrived before the seat started listening
-	seq       uint64
-	stats     map[string]int
-	lastSend  time.Time
+	// messages of OTHER signing sessions claiming these (participating) senders
+	// are mixed in: a re-crafted copy before every genuine message and a
+	// periodic flood of recorded messages of all phases (see c08Foreign*)
+	injectFrom    []group.MemberIndex
+	injectSession string
+	foreign       map[int][]byte // phase -> raw message recorded in another run
+	recordFrom    group.MemberIndex
+	recorded      map[int][]byte
+	seq           uint64
+	stats         map[string]int
+	lastSend      time.Time
 }
 
 func c08NewHub(seats []group.MemberIndex, pubKeys map[group.MemberIndex][]byte, plan map[string]int) *c08Hub {
@@ -181,6 +191,139 @@ func (h *c08Hub) releaseHeld(receiver group.MemberIndex, belowType int) {
 	}
 }
 
+// deliverForeign hands over a message of another session; one the real
+// unmarshaler rejects is counted, not delivered.
+func (h *c08Hub) deliverForeign(receiver, claimed group.MemberIndex, typ string, raw []byte, kind string) {
+	payload := h.newPayload(typ, raw)
+	h.mu.Lock()
+	if payload == nil {
+		h.stats[kind+"-unparsable"]++
+		h.mu.Unlock()
+		return
+	}
+	h.seq++
+	h.stats[kind]++
+	msg := &c08Msg{sender: fmt.Sprintf("seat-%d", claimed), pubKey: h.pubKeys[claimed], payload: payload, typ: typ, seq: h.seq}
+	h.mu.Unlock()
+	h.handOver(receiver, msg)
+}
+
+// floodForeign delivers, for every injecting sender, the recorded messages of
+// ALL phases of another signing session (sender id rewritten to that sender)
+// to every other participant - what retransmissions of the previous message of
+// a batch look like on the wallet channel.
+func (h *c08Hub) floodForeign() {
+	if len(h.injectFrom) == 0 || len(h.foreign) == 0 {
+		return
+	}
+	h.mu.Lock()
+	types := map[int]string{}
+	for typ, ti := range h.typeOrder {
+		types[ti] = typ
+	}
+	h.mu.Unlock()
+	for _, from := range h.injectFrom {
+		for ti := 0; ti < len(types); ti++ {
+			raw := h.foreign[ti]
+			if raw == nil {
+				continue
+			}
+			crafted := c08Recraft(ti, raw, uint32(from), "", false)
+			if crafted == nil {
+				continue
+			}
+			for _, r := range h.seats {
+				if r != from {
+					h.deliverForeign(r, from, types[ti], crafted, "foreign-flood")
+				}
+			}
+		}
+	}
+}
+
+func c08SigningPb(phase int) proto.Message {
+	switch phase {
+	case 0:
+		return &signingpb.EphemeralPublicKeyMessage{}
+	case 1:
+		return &signingpb.TSSRoundOneMessage{}
+	case 2:
+		return &signingpb.TSSRoundTwoMessage{}
+	case 3:
+		return &signingpb.TSSRoundThreeMessage{}
+	case 4:
+		return &signingpb.TSSRoundFourMessage{}
+	case 5:
+		return &signingpb.TSSRoundFiveMessage{}
+	case 6:
+		return &signingpb.TSSRoundSixMessage{}
+	case 7:
+		return &signingpb.TSSRoundSevenMessage{}
+	case 8:
+		return &signingpb.TSSRoundEightMessage{}
+	case 9:
+		return &signingpb.TSSRoundNineMessage{}
+	}
+	return nil
+}
+
+// c08Recraft rewrites a marshalled signing message of the given phase on the
+// wire level: sender id (0 keeps it), session id ("" keeps it) and, if asked,
+// the content (payload bytes altered, ephemeral keys rotated among receivers).
+func c08Recraft(phase int, raw []byte, sender uint32, session string, alter bool) []byte {
+	m := c08SigningPb(phase)
+	if m == nil || proto.Unmarshal(raw, m) != nil {
+		return nil
+	}
+	r := m.ProtoReflect()
+	fields := r.Descriptor().Fields()
+	if fd := fields.ByName("senderID"); fd != nil && sender != 0 {
+		r.Set(fd, protoreflect.ValueOfUint32(sender))
+	}
+	if fd := fields.ByName("sessionID"); fd != nil && session != "" {
+		r.Set(fd, protoreflect.ValueOfString(session))
+	}
+	flip := func(b []byte) []byte {
+		c := append([]byte{}, b...)
+		if len(c) > 0 {
+			c[len(c)/2] ^= 0x5a
+			c[len(c)-1] ^= 0x01
+		}
+		return c
+	}
+	if alter {
+		if fd := fields.ByName("broadcastPayload"); fd != nil {
+			r.Set(fd, protoreflect.ValueOfBytes(flip(r.Get(fd).Bytes())))
+		}
+		if fd := fields.ByName("peersPayload"); fd != nil {
+			mp := r.Mutable(fd).Map()
+			var keys []protoreflect.MapKey
+			mp.Range(func(k protoreflect.MapKey, _ protoreflect.Value) bool { keys = append(keys, k); return true })
+			for _, k := range keys {
+				mp.Set(k, protoreflect.ValueOfBytes(flip(mp.Get(k).Bytes())))
+			}
+		}
+		if fd := fields.ByName("ephemeralPublicKeys"); fd != nil {
+			mp := r.Mutable(fd).Map()
+			var keys []protoreflect.MapKey
+			mp.Range(func(k protoreflect.MapKey, _ protoreflect.Value) bool { keys = append(keys, k); return true })
+			sort.Slice(keys, func(i, j int) bool { return keys[i].Uint() < keys[j].Uint() })
+			vals := make([][]byte, len(keys))
+			for i, k := range keys {
+				vals[i] = append([]byte{}, mp.Get(k).Bytes()...)
+			}
+			for i, k := range keys {
+				mp.Set(k, protoreflect.ValueOfBytes(vals[(i+1)%len(keys)]))
+			}
+		}
+	}
+	out, err := proto.Marshal(m)
+	if err != nil {
+		return nil
+	}
+	return out
+}
+
 func (h *c08Hub) heldCount() int {
 	h.mu.Lock()
 	defer h.mu.Unlock()
@@ -205,6 +348,26 @@ func (h *c08Hub) onSend(sender group.MemberIndex, typ string, raw []byte) {
 	h.mu.Unlock()
 	if !ok {
 		return
+	}
+	if h.recordFrom == sender && h.recorded != nil {
+		h.mu.Lock()
+		if _, have := h.recorded[ti]; !have {
+			h.recorded[ti] = append([]byte{}, raw...)
+		}
+		h.mu.Unlock()
+	}
+	for _, from := range h.injectFrom {
+		if from != sender {
+			continue
+		}
+		// what the same sender transmits in another session (another attempt
+		// for the same message): same type, other session id, other content
+		crafted := c08Recraft(ti, raw, 0, h.injectSession, true)
+		for _, r := range h.seats {
+			if r != sender && crafted != nil {
+				h.deliverForeign(r, sender, typ, crafted, "foreign-before-genuine")
+			}
+		}
 	}
 	for _, r := range h.seats {
 		action := c08Normal
@@ -282,6 +445,7 @@ func (h *c08Hub) pump(done <-chan struct{}) {
 		case <-done:
 			return
 		case <-tick.C:
+			h.floodForeign()
 			h.mu.Lock()
 			idle := time.Since(h.lastSend)
 			h.mu.Unlock()
@@ -643,6 +807,9 @@ type c08SignCase struct {
 	message *big.Int
 	plan    map[string]int
 	chaos   int
+	// participants whose messages of OTHER signing sessions are mixed in
+	inject []group.MemberIndex
+	record group.MemberIndex // harness: keep this sender's first message of every phase
 }
 
 func (c *c08SignCase) describe() string {
@@ -658,15 +825,16 @@ func (c *c08SignCase) describe() string {
 	if len(sched) > 12 {
 		sched = append(sched[:12], fmt.Sprintf("...+%d", len(sched)-12))
 	}
-	return fmt.Sprintf("signers=%v msg=0x%s schedule=%v", c.subset, c.message.Text(16), sched)
+	return fmt.Sprintf("signers=%v msg=0x%s other-session-messages-of=%v schedule=%v", c.subset, c.message.Text(16), c.inject, sched)
 }
 
 type c08SignOutcome struct {
-	sigs    map[group.MemberIndex]*tecdsa.Signature
-	errs    map[group.MemberIndex]error
-	hard    map[group.MemberIndex]bool // the error came while the run was still live
-	timeout bool
-	stats   map[string]int
+	sigs     map[group.MemberIndex]*tecdsa.Signature
+	errs     map[group.MemberIndex]error
+	hard     map[group.MemberIndex]bool // the error came while the run was still live
+	timeout  bool
+	stats    map[string]int
+	recorded map[int][]byte
 }
 
 var c08SignBudget = time.Duration(verifkit.EnvInt("VERIF_C08_SIGN_BUDGET_S", 240)) * time.Second
@@ -696,6 +864,18 @@ func c08Sign(w *c08Wallet, signers map[group.MemberIndex]*signer, c *c08SignCase
 		pubKeys[group.MemberIndex(i+1)] = ops[w.seatOp[d-1]].pubKeyBytes
 	}
 	hub := c08NewHub(c.subset, pubKeys, c.plan)
+	if len(c.inject) > 0 {
+		foreign, err := c08ForeignSession()
+		if err != nil {
+			return nil, err
+		}
+		hub.injectFrom, hub.foreign = c.inject, foreign
+		// another attempt for the same message
+		hub.injectSession = fmt.Sprintf("%v-%v", c.message.Text(16), 2)
+	}
+	if c.record != 0 {
+		hub.recordFrom, hub.recorded = c.record, map[int][]byte{}
+	}
 	ctx, cancel := context.WithTimeout(context.Background(), budget)
 	defer cancel()
 	out := &c08SignOutcome{sigs: map[group.MemberIndex]*tecdsa.Signature{}, errs: map[group.MemberIndex]error{}, hard: map[group.MemberIndex]bool{}}
@@ -746,6 +926,7 @@ func c08Sign(w *c08Wallet, signers map[group.MemberIndex]*signer, c *c08SignCase
 	hub.pump(done)
 	out.timeout = ctx.Err() == context.DeadlineExceeded
 	out.stats = hub.stats
+	out.recorded = hub.recorded
 	return out, nil
 }
 
@@ -816,17 +997,51 @@ func c08CheckOutcome(t c08Fataler, w *c08Wallet, signers map[group.MemberIndex]*
 	}
 }
 
+var (
+	c08ForeignOnce sync.Once
+	c08ForeignMsgs map[int][]byte
+	c08ForeignErr  error
+)
+
+// c08ForeignSession returns member 1's messages of all ten phases of a complete
+// signing session of the plain fixture group (message 0xD0): genuine messages
+// of ANOTHER session, as they are still retransmitted on the wallet channel
+// while the next message of a batch is signed. One run per process.
+func c08ForeignSession() (map[int][]byte, error) {
+	c08ForeignOnce.Do(func() {
+		out, err := c08PlainFixtureSigning(&c08SignCase{subset: []group.MemberIndex{1, 2, 3}, message: big.NewInt(0xD0), record: 1}, c08SignBudget)
+		if err != nil {
+			c08ForeignErr = err
+			return
+		}
+		if len(out.sigs) != 3 || len(out.recorded) != c08SigningPhases {
+			c08ForeignErr = fmt.Errorf("VERIF-INCONCLUSIVE: the signing session to record foreign messages from did not complete (%d signatures, %d phases, errors %v)", len(out.sigs), len(out.recorded), out.errs)
+			return
+		}
+		c08ForeignMsgs = out.recorded
+	})
+	return c08ForeignMsgs, c08ForeignErr
+}
+
 // c08Control signs with final members 1,2,3 of the untouched fixture group over
 // an undisturbed hub, bypassing everything C08 is about.
 func c08Control(budget time.Duration) (bool, error) {
-	fx, base, err := c08LoadFixtures()
+	out, err := c08PlainFixtureSigning(&c08SignCase{subset: []group.MemberIndex{1, 2, 3}, message: big.NewInt(0xC08)}, budget)
 	if err != nil {
 		return false, err
+	}
+	return len(out.sigs) == 3, nil
+}
+
+func c08PlainFixtureSigning(c *c08SignCase, budget time.Duration) (*c08SignOutcome, error) {
+	fx, base, err := c08LoadFixtures()
+	if err != nil {
+		return nil, err
 	}
 	w := &c08Wallet{source: "fixture", n: 5, quorum: 3, honest: 3, seed: base, operating: []group.MemberIndex{1, 2, 3, 4, 5}, seatOp: []int{0, 1, 2, 3, 4}}
 	ops, _, err := c08Operators()
 	if err != nil {
-		return false, err
+		return nil, err
 	}
 	var operators []chain.Address
 	for i := 0; i < 5; i++ {
@@ -837,12 +1052,7 @@ func c08Control(budget time.Duration) (bool, error) {
 		share := tecdsa.NewPrivateKeyShare(fx[i])
 		signers[group.MemberIndex(i+1)] = newSigner(share.PublicKey(), operators, group.MemberIndex(i+1), share)
 	}
-	c := &c08SignCase{subset: []group.MemberIndex{1, 2, 3}, message: big.NewInt(0xC08)}
-	out, err := c08Sign(w, signers, c, budget)
-	if err != nil {
-		return false, err
-	}
-	return len(out.sigs) == 3, nil
+	return c08Sign(w, signers, c, budget)
 }
 
 func c08Debugf(format string, args ...any) {
@@ -972,6 +1182,9 @@ func c08SignLabels(w *c08Wallet, c *c08SignCase, kind string, out *c08SignOutcom
 	if len(c.subset) > w.honest {
 		labels = append(labels, "more-than-threshold")
 	}
+	if len(c.inject) > 0 {
+		labels = append(labels, fmt.Sprintf("other-session-messages-of:%d-signers", len(c.inject)))
+	}
 	distinctOps := map[int]bool{}
 	for _, d := range w.operating {
 		distinctOps[w.seatOp[d-1]] = true
@@ -1055,7 +1268,21 @@ func c08DrawSignCase(t *rapid.T, w *c08Wallet, label string, allowLarger bool) (
 	var kind string
 	c.message, kind = c08DrawMessage(t, label+"Msg")
 	c.plan, c.chaos = c08DrawPlan(t, c.subset, label)
+	c.inject = c08DrawInject(t, c.subset, label)
 	return c, kind
+}
+
+// c08DrawInject picks the participants (none in a third of the cases) whose
+// messages of other signing sessions reach the others during the run.
+func c08DrawInject(t *rapid.T, subset []group.MemberIndex, label string) []group.MemberIndex {
+	k := rapid.SampledFrom([]int{1, 2, 0}).Draw(t, label+"OtherSessionSenders")
+	if k == 0 {
+		return nil
+	}
+	perm := rapid.Permutation(append([]group.MemberIndex{}, subset...)).Draw(t, label+"OtherSessionFrom")
+	out := append([]group.MemberIndex{}, perm[:k]...)
+	sort.Slice(out, func(i, j int) bool { return out[i] < out[j] })
+	return out
 }
 
 func TestVerif_C08_FixtureWallets(t *testing.T) {
@@ -1132,6 +1359,7 @@ func TestVerif_C08_EverySubset(t *testing.T) {
 						var kind string
 						sc.message, kind = c08DrawMessage(rt, label+"Msg")
 						sc.plan, sc.chaos = c08DrawPlan(rt, sc.subset, label)
+						sc.inject = c08DrawInject(rt, sc.subset, label)
 						jobs = append(jobs, job{w, sc, kind})
 					}
 				}
